@@ -20,5 +20,6 @@ C12 known-concurrent-commits C12-two-bundles-concurrent-commits
 C12 known-crash-after-bundle-retry C12-two-bundles-crash-after-bundle-descriptor_retry
 C13 known-dedup-onto-orphan C13-purge-lost-data-dedup-onto-orphaned-blob
 C19 known-list-entries-after-add C19-entries-mismatch-ListEntries-after-Add
+C07 known-key-order-across-pages C07-order-key-order-across-pages
 L
 exit $rc
